@@ -57,7 +57,7 @@ def gen(rng, tier, i):
     p.cfg('MaxCallDepth', rng.choice((30, 50)))
     p.cfg('MaxInheritDepth', 3)
     st = {'leaf': 0, 'catch': 0}
-    kind = rng.choice(('cmd', 'cmd', 'cmd', 'netdead', 'callout', 'heartbeat'))
+    kind = rng.choice(('cmd', 'cmd', 'cmd', 'netdead', 'callout', 'heartbeat', 'edwrite'))
     p.opt('c05_kind', kind)
 
     def cmd(text, c=0): return p.cycle(send(c, 'do ' + text + '\r\n'))
@@ -73,6 +73,13 @@ def gen(rng, tier, i):
     if kind == 'cmd':
         ops = [_nest(rng, 0, st) for _ in range(rng.randint(1, 3))]
         j = cmd(';'.join(ops))
+    elif kind == 'edwrite':
+        # the editor's write callback runs through safe_apply() with two arguments; the fault lands inside it
+        p.file('d/f1', 'line1\nline2\n')
+        cmd('sc me edw %s' % ','.join(_nest(rng, 1, st) for _ in range(rng.randint(1, 2))))
+        cmd('fe 1 edw ' + 'd/f1'.encode().hex())
+        j = p.cycle(send(0, 'w\r\n'))
+        p.cycle(send(0, 'Q\r\n')); p.cycle(send(0, 'Q\r\n'))
     elif kind == 'netdead':
         cmd('sc me net_dead %s' % ','.join(_nest(rng, 1, st) for _ in range(rng.randint(1, 2))))
         j = p.cycle(rng.choice((eof(0), rst(0))))
